@@ -6,3 +6,4 @@ export GOFLAGS=-mod=mod GOPROXY=off GOSUMDB=off GOTOOLCHAIN=local
 cp /repo/go.sum . 2>/dev/null || true
 go build -tags verif -o ../build/xh ./cmd/xh
 go build -o ../build/gentables ./cmd/gentables
+go build -o ../build/geneffects ./cmd/geneffects
